@@ -362,11 +362,18 @@ func runHistory(w *W, st *c15stats, src objSource, hseed uint64, n int) {
 		return
 	}
 	w.Eval(1)
-	selfBefore := obsVector(o)
-	if selfBefore != twinBefore {
-		w.Violate(Violation{Monitor: "C15", Check: "two objects obtained the same way report identical results", Case: c, Observed: clip(selfBefore, 600), Expected: clip(twinBefore, 600)})
+	// The object under test is NOT queried before its history starts: its first query is whatever the
+	// seeded sequence says, so an operation whose first execution changes what others report is seen
+	// whatever it is.  The reference is the observation vector of twins.
+	selfBefore := twinBefore
+	if t2 := obsVector(src.make()); t2 != twinBefore {
+		w.Violate(Violation{Monitor: "C15", Check: "two objects obtained the same way report identical results", Case: c, Observed: clip(t2, 600), Expected: clip(twinBefore, 600)})
 	}
 	a0 := stateA(o)
+	aTwin := stateA(src.make())
+	if stripPtr(a0) != stripPtr(aTwin) {
+		w.Violate(Violation{Monitor: "C15", Check: "two objects obtained the same way have identical exported fields", Case: c, Observed: a0, Expected: aTwin})
+	}
 	n0 := namesFingerprint(o)
 	first := map[int]string{}
 	var trace []string
@@ -651,6 +658,17 @@ func runC15(r *Run) int {
 	r.Extra("process_level", map[string]int{"child_processes": K, "pairs_per_child": nPairs, "cold_single_pair_processes": nCold})
 	return r.Finish("per-object monitor: seeded random sequences (10-100 quick / 10-200 thorough) over {Score, Severity, GetError, Encode, String, BaseMetrics, TemporalMetrics, IsEmpty, report.New* in a random language, report + ExportWithString, exported embedded objects} on objects from successful decodes, receivers left behind by failed decodes and constructors (all six types): exported fields and embedded-pointer identity compared after every operation, every result compared with the first result of that (object, operation), final observation vector compared with the object's own before the history and with twins obtained before and after it; mutate-field/query/restore/query steps against a fresh twin; process level: K child processes execute the same multiset of (vector, operation) pairs in different orders with interleaved unrelated queries, plus cold single-pair processes - all digests equal; API-level snapshot of all package tables before/after; distinct non-trivial = distinct objects put through a history",
 		false, int64(r.SetSize("objects")), int64(nObj), int64(nObj/2), TrustedBase)
+}
+
+// stripPtr removes the pointer identities from a stateA rendering.
+func stripPtr(s string) string {
+	if i := strings.Index(s, " base@"); i >= 0 {
+		return s[:i]
+	}
+	if i := strings.Index(s, " temporal@"); i >= 0 {
+		return s[:i]
+	}
+	return s
 }
 
 func firstDiffLine(a, b string) string {
